@@ -176,6 +176,21 @@ def r04_5(run, model, mir):
                    witness="an ill-formed program makes name/type lookup panic instead of reporting a diagnostic")
         elif rel.startswith("crates/compiler/src/"):
             ctrl += 1
+    # indexing in the lookup layer (resolved Index::index calls and MIR bounds checks)
+    idx = {}
+    for c in mir.calls:
+        if site_kind(c) == "index" and (c["file"].startswith("crates/compiler/src/typer/") or c["file"] == "crates/compiler/src/env.rs") \
+                and not (c["args"] and re.match(r"^&(mut )?str$", c["args"][0])):
+            idx.setdefault(base_fn(c["caller"]), []).append((c["file"], c["line"]))
+    for a_ in mir.raw["assert"]:
+        if a_["kind"] == "BoundsCheck" and (a_["file"].startswith("crates/compiler/src/typer/") or a_["file"] == "crates/compiler/src/env.rs"):
+            idx.setdefault(base_fn(a_["caller"]), []).append((a_["file"], a_["line"]))
+    allowed = {"env::TypeEnv::build_enum_constructor": (2, "index obtained from enumerate()/position over the same variants vector")}
+    for fn_, lst in sorted(idx.items()):
+        led = allowed.get(fn_)
+        ok = led is not None and len(lst) <= led[0]
+        run.ob("R04.5", f"{fn_}|index", ok, site(lst[0][0], [lst[0][1]]), f"{len(lst)} indexing site(s) in the lookup layer" + (f"; ledger: {led[1]}" if led else "; not in the ledger"),
+               witness="`args[0]` / `params[i]` on an ill-formed call: the typer panics instead of reporting a diagnostic")
     run.ob("R04.5", "typer + env|no explicit panic site", bad == 0, None, f"{bad} sites in the lookup layer; {ctrl} elsewhere in the compiler crate (control)")
     run.floor("positive control: explicit panic sites recognised elsewhere in the compiler", ctrl, 50)
 
@@ -232,6 +247,10 @@ def run(run, model):
     from rules import c15
     run.rule("R04.8", "a link input that lacks a pinned dependency is an error, not a crash: shared with C15 R15.4")
     run.try_rule(c15.r15_4, model)
+    from rules import c07
+    run.rule("R04.9", "specialisation neither panics on a supported type former nor recurses without bound: shared with C07 R07.1 / R07.5")
+    run.try_rule(c07.r07_1, model)
+    run.try_rule(c07.r07_5, model)
     run.rule("R04.6", "no cyclic type can be built: shared with C03 R03.2 (occurs before binding; occurs handles every type former)")
     run.try_rule(c03.r03_2, model)
     run.assume("Parser::expect consumes an unexpected token unless it is in the recovery set; the analysis treats a failed expect as possibly non-advancing")
